@@ -139,24 +139,37 @@ Advance == /\ adv' = now
            /\ firedAt' = [i \in Items |-> IF i \in Range(w'.exp) /\ i \notin Range(w.exp) THEN now ELSE firedAt[i]]
            /\ UNCHANGED <<now, st, addedAt, tmo, fresh>> /\ res' = NoRes /\ ok' = TRUE
 
-Add(i, to) == /\ RefAdd(i, to)
-              /\ StaleAdds \/ adv = now
-              /\ \A j \in Items : j < i => st[j] # "free"       \* items are interchangeable: take the smallest free one
-              /\ w' = WAdd(w, i, to)
-              /\ firedAt' = [firedAt EXCEPT ![i] = -1]
-              /\ UNCHANGED <<now, adv>> /\ res' = NoRes /\ ok' = TRUE
+AddStep(i, to) == /\ RefAdd(i, to)
+                  /\ StaleAdds \/ adv = now
+                  /\ \A j \in Items : j < i => st[j] # "free"       \* items are interchangeable: take the smallest free one
+                  /\ w' = WAdd(w, i, to)
+                  /\ firedAt' = [firedAt EXCEPT ![i] = -1]
+                  /\ UNCHANGED <<now, adv>> /\ res' = NoRes /\ ok' = TRUE
 
-Purge == LET r == WPurge(w) IN
-         /\ w' = r.w
-         /\ res' = [has |-> r.has, v |-> r.v]
-         /\ ok' = RefPurgeOK(r.has, r.v)
-         /\ RefReturn(r.has, r.v)
-         /\ UNCHANGED <<now, adv, firedAt>>
+\* The recycled-item cache (a bounded freelist of TimeoutItems, timerCacheMax = CacheMax): one action per path of
+\* Add (cache empty: a new TimeoutItem / cache non-empty: a recycled one) and of Purge (nothing expired / the
+\* TimeoutItem goes to the cache / the cache is full and the TimeoutItem is dropped), so that the paths are
+\* distinguishable in TLC's state graph.  The reference does not know the cache: every path must give the same
+\* reference-level result.
+AddNew(i, to)      == w.cached = 0 /\ AddStep(i, to)
+AddRecycled(i, to) == w.cached > 0 /\ AddStep(i, to)
+Add(i, to)         == AddNew(i, to) \/ AddRecycled(i, to)
+
+PurgeStep == LET r == WPurge(w) IN
+             /\ w' = r.w
+             /\ res' = [has |-> r.has, v |-> r.v]
+             /\ ok' = RefPurgeOK(r.has, r.v)
+             /\ RefReturn(r.has, r.v)
+             /\ UNCHANGED <<now, adv, firedAt>>
+PurgeEmpty == w.exp = <<>> /\ PurgeStep
+PurgeCache == w.exp # <<>> /\ w.cached < CacheMax /\ PurgeStep
+PurgeDrop  == w.exp # <<>> /\ w.cached >= CacheMax /\ PurgeStep
+Purge      == PurgeEmpty \/ PurgeCache \/ PurgeDrop
 
 Next == \/ \E d \in Gaps : Tick(d)
         \/ Advance
-        \/ \E i \in Items, to \in Timeouts : Add(i, to)
-        \/ Purge
+        \/ \E i \in Items, to \in Timeouts : AddNew(i, to) \/ AddRecycled(i, to)
+        \/ PurgeEmpty \/ PurgeCache \/ PurgeDrop
 
 Spec == Init /\ [][Next]_vars
 
